@@ -122,7 +122,8 @@ pub fn generate_from_config(
         }
     }
 
-    if commands.is_empty() {
+    // A project that only emits events still gets its listeners
+    if commands.is_empty() && analyzer.get_discovered_events().is_empty() {
         if config.is_verbose() {
             logger.warning("⚠️  No Tauri commands found. Make sure your project contains functions with #[tauri::command] attributes.");
         }
